@@ -28,4 +28,5 @@ def run(e, R, tier):
         P.r_main_flag,
         P.r_exitcode,
         P.r_vendor,
+        P.r_init_truth,
     ])
